@@ -87,6 +87,13 @@ DlMemos(M) == LET tb == Tb(M) IN
     /\ SeqSet(dl.posted) \subseteq {p - 1 : p \in Idx(dl.parts)}
     \* partitions with unprocessed early terminations are exactly the ones flagged
     /\ SeqSet(dl.early) = {p - 1 : p \in {q \in Idx(dl.parts) : Len(dl.parts[q].etq) > 0}}
+\* the deadline-level expiration queue names, at every epoch at which some partition's own queue has an entry, that
+\* partition (it may name more: entries are not withdrawn when sectors are rescheduled) -- the proving-deadline
+\* callback visits only the partitions it names
+DlQueueCovers(M) ==
+  \A d \in Idx(M.dls) : \A p \in Idx(M.dls[d].parts) :
+     \A i \in Idx(M.dls[d].parts[p].q) :
+        \E k \in Idx(M.dls[d].dq) : M.dls[d].dq[k].e = M.dls[d].parts[p].q[i].e /\ (p - 1) \in SeqSet(M.dls[d].dq[k].p)
 EarlyDls(M) == SeqSet(M.earlyDls) = {d - 1 : d \in {x \in Idx(M.dls) : Len(M.dls[x].early) > 0}}
 
 \* ---- expiration queues
@@ -343,6 +350,57 @@ WithdrawRepaysDebt(pre, e) ==
      /\ BLeq(SentFrom(e.tr, e.m, M2.ben),
              IF "req" \in DOMAIN e THEN e.req     \* the requested amount in attoFIL as logged by the driver
              ELSE BMulSmall(BMulSmall(BMulSmall(BOfInt(e.nano), 10000), 10000), 10))   \* nanoFIL -> attoFIL
+\* ---- C02, transition clauses: "a sector contributes no power before a Window PoSt submission has covered it nor
+\* while it is skipped, faulty or not yet proven recovered, and a deadline that closes without a proof removes the
+\* power of its unproven partitions at that deadline's end"
+AllS(M) == UNION {S_(pt) : pt \in AllParts(M)}
+AllU(M) == UNION {U_(pt) : pt \in AllParts(M)}
+AllF(M) == UNION {F_(pt) : pt \in AllParts(M)}
+AllR(M) == UNION {R_(pt) : pt \in AllParts(M)}
+AllT(M) == UNION {T_(pt) : pt \in AllParts(M)}
+\* the sectors of the partitions named by an accepted Window PoSt (in the state after it)
+PoStCovered(M2, e) == UNION {S_(PartAt(M2, <<e.dl + 1, e.parts[k].i + 1>>)) : k \in {j \in Idx(e.parts) : e.parts[j].i + 1 \in Idx(M2.dls[e.dl + 1].parts)}}
+\* a sector leaves the unproven set for the active set only through an accepted Window PoSt that names its partition
+ProvenOnlyByPoSt(pre, e) ==
+  \A i \in Idx(e.st.miners) :
+     LET M2 == e.st.miners[i] M1 == MinerByName(pre, M2.m)
+         left == (AllU(M1) \cap AllS(M2)) \ (AllU(M2) \cup AllF(M2) \cup AllT(M2))
+     IN  left # {} => (e.ev = "PoSt" /\ e.ok /\ e.m = M2.m /\ left \subseteq PoStCovered(M2, e))
+\* a faulty sector becomes active again only if it was declared recovering and an accepted Window PoSt names its partition
+RecoveredOnlyByPoSt(pre, e) ==
+  \A i \in Idx(e.st.miners) :
+     LET M2 == e.st.miners[i] M1 == MinerByName(pre, M2.m)
+         back == (AllF(M1) \cap AllS(M2)) \ (AllF(M2) \cup AllT(M2))
+     IN  back # {} => (e.ev = "PoSt" /\ e.ok /\ e.m = M2.m /\ back \subseteq PoStCovered(M2, e) /\ back \subseteq AllR(M1))
+\* after an accepted Window PoSt every skipped sector that is still live is faulty
+SkippedFaulted(e) ==
+  (e.ev = "PoSt" /\ e.ok) =>
+     LET M2 == MinerByName(e.st, e.m) IN
+     \A k \in Idx(e.parts) : (e.parts[k].i + 1 \in Idx(M2.dls[e.dl + 1].parts)) =>
+        LET pt == PartAt(M2, <<e.dl + 1, e.parts[k].i + 1>>) IN (SeqSet(e.parts[k].skipped) \cap Live(pt)) \subseteq F_(pt)
+\* the deadline callbacks that fall into a tick of n epochs starting at epoch e0 (the callback of deadline d runs at the
+\* last epoch of d; nothing can be proven during a tick): every live sector of a partition that was not proven when the
+\* tick began is faulty or terminated afterwards
+ClosesIn(M1, d, e0, n) == \E x \in e0..(e0 + n - 1) : x >= M1.pps /\ (x - M1.pps) % P = (d + 1) * W_ - 1
+MissedPoStFaulted(pre, e, lost) ==
+  (e.ev = "Tick" /\ e.cronOK) =>
+     \A i \in Idx(pre.miners) :
+        LET M1 == pre.miners[i] M2 == MinerByName(e.st, M1.m) IN
+        (M1.m \notin lost /\ M1.cronActive) =>
+           \A d \in Idx(M1.dls) : ClosesIn(M1, d - 1, pre.epoch, e.n) =>
+              \A p \in Idx(M1.dls[d].parts) : ((p - 1) \notin SeqSet(M1.dls[d].posted)) =>
+                 LET pt1 == M1.dls[d].parts[p] IN
+                 p \in Idx(M2.dls[d].parts) /\ Live(pt1) \subseteq (F_(M2.dls[d].parts[p]) \cup T_(M2.dls[d].parts[p]))
+
+\* ---- C04 "every sector number is allocated at most once in a miner's lifetime": the allocated set only grows, and
+\* a number that appears among the pre-commitments or sectors was not allocated before
+PreNos(M) == {M.pre[i].n : i \in Idx(M.pre)}
+NumbersFresh(pre, e) ==
+  \A i \in Idx(e.st.miners) :
+     LET M2 == e.st.miners[i] M1 == MinerByName(pre, M2.m) IN
+     /\ SeqSet(M1.alloc) \subseteq SeqSet(M2.alloc)
+     /\ ((SecNos(M2) \cup PreNos(M2)) \ (SecNos(M1) \cup PreNos(M1))) \cap SeqSet(M1.alloc) = {}
+
 \* C15: "every charged amount is either burnt at once or recorded as fee debt": fee debt never just disappears --
 \* whenever a miner's debt goes down, at least that much went to the burnt-funds actor in the same step
 DebtOnlyRepaidByBurn(pre, e) ==
